@@ -52,6 +52,7 @@ func TestVerifPlain(t *testing.T) {
 		var c struct {
 			I      int      `json:"i"`
 			Chunks []string `json:"chunks"`
+			Status []string `json:"status"` /* status / log lines (not Plain), sent after the chunks */
 		}
 		if err := json.Unmarshal(sc.Bytes(), &c); nil != err {
 			t.Fatal(err)
@@ -74,6 +75,10 @@ func TestVerifPlain(t *testing.T) {
 			for _, h := range c.Chunks {
 				b, _ := hex.DecodeString(h)
 				och <- CLine{Plain: true, Line: string(b)}
+			}
+			for _, h := range c.Status {
+				b, _ := hex.DecodeString(h)
+				och <- CLine{Color: ColorCyan, Line: string(b)}
 			}
 			/* one more rendezvous: when it is taken, the previous line has been written */
 			och <- CLine{Plain: true, Line: ""}
